@@ -321,8 +321,13 @@ impl Lin {
 thread_local! {
     pub static CTX: RefCell<Option<Ctx>> = RefCell::new(None);
     /// set while the engine itself is running (masks the counting allocator, see alloc.rs)
-    pub static IN_ENGINE: std::cell::Cell<u32> = std::cell::Cell::new(0);
+    pub static IN_ENGINE: std::cell::Cell<u32> = const { std::cell::Cell::new(0) };
 }
+/// RAII guard marking "inside the engine" for the whole duration of a Sym operation (masks the counting allocator)
+pub struct EngGuard;
+impl Drop for EngGuard { fn drop(&mut self) { IN_ENGINE.with(|e| e.set(e.get() - 1)); } }
+#[inline]
+pub fn enter() -> EngGuard { IN_ENGINE.with(|e| e.set(e.get() + 1)); EngGuard }
 pub fn with<R>(f: impl FnOnce(&mut Ctx) -> R) -> R {
     IN_ENGINE.with(|e| e.set(e.get() + 1));
     let r = CTX.with(|c| f(c.borrow_mut().as_mut().expect("no symbolic context on this thread")));
@@ -495,7 +500,8 @@ impl Ctx {
                 h = h.wrapping_mul(0xD6E8FEB86659FD93); h ^= h >> 32;
                 let u = (h >> 11) as f64 / (1u64 << 53) as f64; // [0,1)
                 let mag = 0.25 + 0.75 * u;
-                if h & 1 == 1 { mag } else { -mag }
+                // naming convention: inputs whose name starts with "pos" are assumed positive by the harness
+                if h & 1 == 1 || self.var_names[*vi as usize].starts_with("pos") { mag } else { -mag }
             }
             Node::Add(a, b) => self.fval(*a) + self.fval(*b), Node::Sub(a, b) => self.fval(*a) - self.fval(*b),
             Node::Mul(a, b) => self.fval(*a) * self.fval(*b), Node::Div(a, b) => self.fval(*a) / self.fval(*b), Node::Neg(a) => -self.fval(*a),
@@ -587,7 +593,7 @@ impl Ctx {
         while let Some(v) = stack.pop() {
             if !need.insert(v) { continue; }
             nl |= self.nl[v as usize];
-            match &self.nodes[v as usize] { Node::Var(_) => vars.push(v), Node::Sqrt(_) | Node::Uf(..) => sp.push(v), _ => {} }
+            match &self.nodes[v as usize] { Node::Var(_) => vars.push(v), Node::Sqrt(_) | Node::Uf(..) => sp.push(v), Node::Mul(a, b) if a == b => sp.push(v), _ => {} }
             // a node whose whole sub-DAG is linear and variable-free cannot contribute anything further; still walk (cheap)
             for d in &self.deps[v as usize][..self.ndeps[v as usize] as usize] { stack.push(*d); }
         }
@@ -599,7 +605,9 @@ impl Ctx {
         let mut ax = vec![];
         for &i in new {
             match self.nodes[i as usize] {
-                Node::Sqrt(a) => ax.push(format!("(=> (>= n{a} 0.0) (and (>= n{i} 0.0) (= (* n{i} n{i}) n{a})))", a = a, i = i)),
+                // a Sqrt node exists only on paths where its argument was established non-negative (the sqrt() call forks on arg < 0)
+                Node::Sqrt(a) => ax.push(format!("(and (>= n{i} 0.0) (= (* n{i} n{i}) n{a}) (= (>= n{a} 1.0) (>= n{i} 1.0)))", a = a, i = i)),
+                Node::Mul(a, b) if a == b => ax.push(format!("(>= n{} 0.0)", i)),
                 Node::Uf(name, a) => match name {
                     "exp" | "exp2" => { ax.push(format!("(> n{} 0.0)", i)); ax.push(format!("(= (> n{} 0.0) (> n{} 1.0))", a, i)); }
                     "tanh" => ax.push(format!("(and (< n{i} 1.0) (> n{i} (- 1.0)) (= (> n{a} 0.0) (> n{i} 0.0)) (= (= n{a} 0.0) (= n{i} 0.0)) (=> (> n{a} 0.0) (< n{i} n{a})) (=> (< n{a} 0.0) (> n{i} n{a})))", i = i, a = a)),
@@ -752,7 +760,24 @@ impl Ctx {
             self.solver.declare(&format!("(assert (and (<= n{v} 1.0) (>= n{v} (- 1.0))))", v = v));
         }
     }
+    /// the concolic sample as a model (exact rational value of each f64 sample)
+    pub fn sample_model(&self) -> Vec<(String, BigRational)> {
+        (0..self.var_names.len()).filter_map(|vi| self.cons.get(&Node::Var(vi as u32)).map(|id| (self.var_names[vi].clone(), f64_rat(self.fval(*id))))).collect()
+    }
+    fn holds_on_sample(&self, c: &Cond<Sym>) -> bool {
+        match c {
+            Cond::Lt(a, b) => self.fval(a.0) < self.fval(b.0), Cond::Le(a, b) => self.fval(a.0) <= self.fval(b.0),
+            Cond::Eq(a, b) | Cond::Ident(a, b) => self.fval(a.0) == self.fval(b.0), Cond::Ne(a, b) => self.fval(a.0) != self.fval(b.0),
+            Cond::And(v) => v.iter().all(|x| self.holds_on_sample(x)), Cond::Or(v) => v.iter().any(|x| self.holds_on_sample(x)),
+            Cond::Not(x) => !self.holds_on_sample(x), Cond::Bool(b) => *b,
+        }
+    }
     pub fn assume(&mut self, c: Cond<Sym>) {
+        if self.concolic.is_some() && self.mode == Mode::Symbolic {
+            if !self.holds_on_sample(&c) { std::panic::panic_any(EngineAbort("assumption is false on the concolic sample".into())); }
+            if self.concrete(&c) != Some(true) { self.push_pc(c); }
+            return;
+        }
         match self.concrete(&c) {
             Some(true) => {}
             Some(false) => std::panic::panic_any(EngineAbort("assumption is false on this path".into())),
@@ -1006,14 +1031,14 @@ fn bin(a: Sym, b: Sym, op: u8) -> Sym {
     }
     with(|c| Sym(match op { 0 => c.mk(Node::Add(a.0, b.0)), 1 => c.mk(Node::Sub(a.0, b.0)), 2 => c.mk(Node::Mul(a.0, b.0)), _ => c.mk(Node::Div(a.0, b.0)) }))
 }
-impl std::ops::Add for Sym { type Output = Sym; fn add(self, o: Sym) -> Sym { bin(self, o, 0) } }
-impl std::ops::Sub for Sym { type Output = Sym; fn sub(self, o: Sym) -> Sym { bin(self, o, 1) } }
-impl std::ops::Mul for Sym { type Output = Sym; fn mul(self, o: Sym) -> Sym { bin(self, o, 2) } }
-impl std::ops::Div for Sym { type Output = Sym; fn div(self, o: Sym) -> Sym { bin(self, o, 3) } }
-impl std::ops::Rem for Sym { type Output = Sym; fn rem(self, _o: Sym) -> Sym { std::panic::panic_any(EngineAbort("unsupported: rem".into())) } }
+impl std::ops::Add for Sym { type Output = Sym; fn add(self, o: Sym) -> Sym { let _g = enter(); bin(self, o, 0) } }
+impl std::ops::Sub for Sym { type Output = Sym; fn sub(self, o: Sym) -> Sym { let _g = enter(); bin(self, o, 1) } }
+impl std::ops::Mul for Sym { type Output = Sym; fn mul(self, o: Sym) -> Sym { let _g = enter(); bin(self, o, 2) } }
+impl std::ops::Div for Sym { type Output = Sym; fn div(self, o: Sym) -> Sym { let _g = enter(); bin(self, o, 3) } }
+impl std::ops::Rem for Sym { type Output = Sym; fn rem(self, _o: Sym) -> Sym { let _g = enter(); std::panic::panic_any(EngineAbort("unsupported: rem".into())) } }
 impl std::ops::Neg for Sym {
     type Output = Sym;
-    fn neg(self) -> Sym {
+    fn neg(self) -> Sym { let _g = enter();
         if let Some(x) = k(self) { return cst(-x); }
         match node(self) {
             Node::NaN => self, Node::PInf => cf(f64::NEG_INFINITY), Node::NInf => cf(f64::INFINITY),
@@ -1022,37 +1047,37 @@ impl std::ops::Neg for Sym {
         }
     }
 }
-impl PartialEq for Sym { fn eq(&self, o: &Sym) -> bool { eq(*self, *o) } }
+impl PartialEq for Sym { fn eq(&self, o: &Sym) -> bool { let _g = enter(); eq(*self, *o) } }
 impl PartialOrd for Sym {
-    fn partial_cmp(&self, o: &Sym) -> Option<std::cmp::Ordering> {
+    fn partial_cmp(&self, o: &Sym) -> Option<std::cmp::Ordering> { let _g = enter();
         use std::cmp::Ordering::*;
         if with(|c| matches!(c.nodes[self.0 as usize], Node::NaN) || matches!(c.nodes[o.0 as usize], Node::NaN)) { return None; }
         if lt(*self, *o) { Some(Less) } else if eq(*self, *o) { Some(Equal) } else { Some(Greater) }
     }
-    fn lt(&self, o: &Sym) -> bool { lt(*self, *o) }
-    fn gt(&self, o: &Sym) -> bool { lt(*o, *self) }
+    fn lt(&self, o: &Sym) -> bool { let _g = enter(); lt(*self, *o) }
+    fn gt(&self, o: &Sym) -> bool { let _g = enter(); lt(*o, *self) }
     // a <= b  ==  not (b < a)   (NaN: false)
-    fn le(&self, o: &Sym) -> bool { if anynan(*self, *o) { false } else { !lt(*o, *self) } }
-    fn ge(&self, o: &Sym) -> bool { if anynan(*self, *o) { false } else { !lt(*self, *o) } }
+    fn le(&self, o: &Sym) -> bool { let _g = enter(); if anynan(*self, *o) { false } else { !lt(*o, *self) } }
+    fn ge(&self, o: &Sym) -> bool { let _g = enter(); if anynan(*self, *o) { false } else { !lt(*self, *o) } }
 }
-fn anynan(a: Sym, b: Sym) -> bool { with(|c| matches!(c.nodes[a.0 as usize], Node::NaN) || matches!(c.nodes[b.0 as usize], Node::NaN)) }
-impl Zero for Sym { fn zero() -> Sym { zero() } fn is_zero(&self) -> bool { eq(*self, zero()) } }
-impl One for Sym { fn one() -> Sym { cst(BigRational::one()) } }
-impl Num for Sym { type FromStrRadixErr = (); fn from_str_radix(_: &str, _: u32) -> Result<Sym, ()> { Err(()) } }
+fn anynan(a: Sym, b: Sym) -> bool { let _g = enter(); with(|c| matches!(c.nodes[a.0 as usize], Node::NaN) || matches!(c.nodes[b.0 as usize], Node::NaN)) }
+impl Zero for Sym { fn zero() -> Sym { let _g = enter(); zero() } fn is_zero(&self) -> bool { let _g = enter(); eq(*self, zero()) } }
+impl One for Sym { fn one() -> Sym { let _g = enter(); cst(BigRational::one()) } }
+impl Num for Sym { type FromStrRadixErr = (); fn from_str_radix(_: &str, _: u32) -> Result<Sym, ()> { let _g = enter(); Err(()) } }
 impl ToPrimitive for Sym {
-    fn to_i64(&self) -> Option<i64> { k(*self).and_then(|r| r.to_integer().to_i64()) }
-    fn to_u64(&self) -> Option<u64> { k(*self).and_then(|r| r.to_integer().to_u64()) }
-    fn to_f64(&self) -> Option<f64> { match node(*self) { Node::NaN => Some(f64::NAN), Node::PInf => Some(f64::INFINITY), Node::NInf => Some(f64::NEG_INFINITY), _ => k(*self).map(|r| rat_f64(&r)) } }
+    fn to_i64(&self) -> Option<i64> { let _g = enter(); k(*self).and_then(|r| r.to_integer().to_i64()) }
+    fn to_u64(&self) -> Option<u64> { let _g = enter(); k(*self).and_then(|r| r.to_integer().to_u64()) }
+    fn to_f64(&self) -> Option<f64> { let _g = enter(); match node(*self) { Node::NaN => Some(f64::NAN), Node::PInf => Some(f64::INFINITY), Node::NInf => Some(f64::NEG_INFINITY), _ => k(*self).map(|r| rat_f64(&r)) } }
 }
 impl NumCast for Sym {
-    fn from<N: ToPrimitive>(n: N) -> Option<Sym> {
+    fn from<N: ToPrimitive>(n: N) -> Option<Sym> { let _g = enter();
         // integers exactly; floats as the exact rational value of that f64
         if let Some(i) = n.to_i64() { if n.to_f64() == Some(i as f64) { return Some(cst(BigRational::from_integer(BigInt::from(i)))); } }
         n.to_f64().map(cf)
     }
 }
-fn unsupported(what: &str) -> ! { std::panic::panic_any(EngineAbort(format!("unsupported Float method: {}", what))) }
-fn uf1(s: Sym, name: &'static str, f: fn(f64) -> f64) -> Sym {
+fn unsupported(what: &str) -> ! { let _g = enter(); std::panic::panic_any(EngineAbort(format!("unsupported Float method: {}", what))) }
+fn uf1(s: Sym, name: &'static str, f: fn(f64) -> f64) -> Sym { let _g = enter();
     if let Some(x) = k(s) { with(|c| if c.mode == Mode::Exact && c.n_inputs > 0 { c.approx = true }); return cf(f(rat_f64(&x))); }
     match node(s) {
         Node::NaN => nan(),
@@ -1061,87 +1086,87 @@ fn uf1(s: Sym, name: &'static str, f: fn(f64) -> f64) -> Sym {
         _ => with(|c| Sym(c.mk(Node::Uf(name, s.0)))),
     }
 }
-fn exact_sqrt(r: &BigRational) -> Option<BigRational> {
+fn exact_sqrt(r: &BigRational) -> Option<BigRational> { let _g = enter();
     if r.is_negative() { return None; }
     let (n, d) = (r.numer().sqrt(), r.denom().sqrt());
     if &(&n * &n) == r.numer() && &(&d * &d) == r.denom() { Some(BigRational::new(n, d)) } else { None }
 }
 impl num::Float for Sym {
-    fn nan() -> Sym { nan() }
-    fn infinity() -> Sym { cf(f64::INFINITY) }
-    fn neg_infinity() -> Sym { cf(f64::NEG_INFINITY) }
-    fn neg_zero() -> Sym { zero() }
-    fn min_value() -> Sym { cf(f64::MIN) }
-    fn min_positive_value() -> Sym { cf(f64::MIN_POSITIVE) }
-    fn max_value() -> Sym { cf(f64::MAX) }
-    fn epsilon() -> Sym { cf(f64::EPSILON) }
-    fn is_nan(self) -> bool { matches!(node(self), Node::NaN) }
-    fn is_infinite(self) -> bool { matches!(node(self), Node::PInf | Node::NInf) }
-    fn is_finite(self) -> bool { !with(|c| c.special(self.0)) }
-    fn is_normal(self) -> bool { unsupported("is_normal") }
-    fn classify(self) -> std::num::FpCategory { unsupported("classify") }
-    fn floor(self) -> Sym { if let Some(x) = k(self) { cst(x.floor()) } else { unsupported("floor") } }
-    fn ceil(self) -> Sym { if let Some(x) = k(self) { cst(x.ceil()) } else { unsupported("ceil") } }
-    fn round(self) -> Sym { if let Some(x) = k(self) { cst(x.round()) } else { unsupported("round") } }
-    fn trunc(self) -> Sym { if let Some(x) = k(self) { cst(x.trunc()) } else { unsupported("trunc") } }
-    fn fract(self) -> Sym { if let Some(x) = k(self) { cst(x.fract()) } else { unsupported("fract") } }
-    fn abs(self) -> Sym { match node(self) { Node::NaN => self, Node::PInf | Node::NInf => cf(f64::INFINITY), _ => if lt(self, zero()) { -self } else { self } } }
-    fn signum(self) -> Sym { if matches!(node(self), Node::NaN) { return self; } if lt(self, zero()) { -Sym::one() } else { Sym::one() } }
-    fn is_sign_positive(self) -> bool { !lt(self, zero()) }
-    fn is_sign_negative(self) -> bool { lt(self, zero()) }
-    fn mul_add(self, a: Sym, b: Sym) -> Sym { self * a + b }
-    fn recip(self) -> Sym { Sym::one() / self }
-    fn powi(self, n: i32) -> Sym {
+    fn nan() -> Sym { let _g = enter(); nan() }
+    fn infinity() -> Sym { let _g = enter(); cf(f64::INFINITY) }
+    fn neg_infinity() -> Sym { let _g = enter(); cf(f64::NEG_INFINITY) }
+    fn neg_zero() -> Sym { let _g = enter(); zero() }
+    fn min_value() -> Sym { let _g = enter(); cf(f64::MIN) }
+    fn min_positive_value() -> Sym { let _g = enter(); cf(f64::MIN_POSITIVE) }
+    fn max_value() -> Sym { let _g = enter(); cf(f64::MAX) }
+    fn epsilon() -> Sym { let _g = enter(); cf(f64::EPSILON) }
+    fn is_nan(self) -> bool { let _g = enter(); matches!(node(self), Node::NaN) }
+    fn is_infinite(self) -> bool { let _g = enter(); matches!(node(self), Node::PInf | Node::NInf) }
+    fn is_finite(self) -> bool { let _g = enter(); !with(|c| c.special(self.0)) }
+    fn is_normal(self) -> bool { let _g = enter(); unsupported("is_normal") }
+    fn classify(self) -> std::num::FpCategory { let _g = enter(); unsupported("classify") }
+    fn floor(self) -> Sym { let _g = enter(); if let Some(x) = k(self) { cst(x.floor()) } else { unsupported("floor") } }
+    fn ceil(self) -> Sym { let _g = enter(); if let Some(x) = k(self) { cst(x.ceil()) } else { unsupported("ceil") } }
+    fn round(self) -> Sym { let _g = enter(); if let Some(x) = k(self) { cst(x.round()) } else { unsupported("round") } }
+    fn trunc(self) -> Sym { let _g = enter(); if let Some(x) = k(self) { cst(x.trunc()) } else { unsupported("trunc") } }
+    fn fract(self) -> Sym { let _g = enter(); if let Some(x) = k(self) { cst(x.fract()) } else { unsupported("fract") } }
+    fn abs(self) -> Sym { let _g = enter(); match node(self) { Node::NaN => self, Node::PInf | Node::NInf => cf(f64::INFINITY), _ => if lt(self, zero()) { -self } else { self } } }
+    fn signum(self) -> Sym { let _g = enter(); if matches!(node(self), Node::NaN) { return self; } if lt(self, zero()) { -Sym::one() } else { Sym::one() } }
+    fn is_sign_positive(self) -> bool { let _g = enter(); !lt(self, zero()) }
+    fn is_sign_negative(self) -> bool { let _g = enter(); lt(self, zero()) }
+    fn mul_add(self, a: Sym, b: Sym) -> Sym { let _g = enter(); self * a + b }
+    fn recip(self) -> Sym { let _g = enter(); Sym::one() / self }
+    fn powi(self, n: i32) -> Sym { let _g = enter();
         // f64::powi(x, 2) is x*x exactly; higher powers are repeated products in real arithmetic
         let mut r = Sym::one();
         for _ in 0..n.unsigned_abs() { r = r * self; }
         if n < 0 { Sym::one() / r } else { r }
     }
-    fn powf(self, e: Sym) -> Sym { if let (Some(x), Some(y)) = (k(self), k(e)) { cf(rat_f64(&x).powf(rat_f64(&y))) } else { unsupported("powf") } }
-    fn sqrt(self) -> Sym {
+    fn powf(self, e: Sym) -> Sym { let _g = enter(); if let (Some(x), Some(y)) = (k(self), k(e)) { cf(rat_f64(&x).powf(rat_f64(&y))) } else { unsupported("powf") } }
+    fn sqrt(self) -> Sym { let _g = enter();
         if let Some(x) = k(self) { return match exact_sqrt(&x) { Some(r) => cst(r), None => { with(|c| if c.mode == Mode::Exact { c.approx = true }); cf(rat_f64(&x).sqrt()) } }; }
         match node(self) { Node::NaN | Node::NInf => return nan(), Node::PInf => return self, _ => {} }
         if lt(self, zero()) { event(format!("sqrt of negative feasible: {}", show(self))); return nan(); }
         with(|c| Sym(c.mk(Node::Sqrt(self.0))))
     }
-    fn exp(self) -> Sym { uf1(self, "exp", f64::exp) }
-    fn exp2(self) -> Sym { uf1(self, "exp2", f64::exp2) }
-    fn ln(self) -> Sym {
+    fn exp(self) -> Sym { let _g = enter(); uf1(self, "exp", f64::exp) }
+    fn exp2(self) -> Sym { let _g = enter(); uf1(self, "exp2", f64::exp2) }
+    fn ln(self) -> Sym { let _g = enter();
         if k(self).is_none() && !with(|c| c.special(self.0)) {
             if lt(self, zero()) { event(format!("ln of negative feasible: {}", show(self))); return nan(); }
             if eq(self, zero()) { event(format!("ln of zero feasible: {}", show(self))); return cf(f64::NEG_INFINITY); }
         }
         uf1(self, "ln", f64::ln)
     }
-    fn log(self, _: Sym) -> Sym { unsupported("log") }
-    fn log2(self) -> Sym {
+    fn log(self, _: Sym) -> Sym { let _g = enter(); unsupported("log") }
+    fn log2(self) -> Sym { let _g = enter();
         if k(self).is_none() && !with(|c| c.special(self.0)) {
             if lt(self, zero()) { return nan(); }
             if eq(self, zero()) { return cf(f64::NEG_INFINITY); }
         }
         uf1(self, "log2", f64::log2)
     }
-    fn log10(self) -> Sym { uf1(self, "log10", f64::log10) }
-    fn max(self, o: Sym) -> Sym { if lt(self, o) { o } else { self } }
-    fn min(self, o: Sym) -> Sym { if lt(o, self) { o } else { self } }
-    fn abs_sub(self, _: Sym) -> Sym { unsupported("abs_sub") }
-    fn cbrt(self) -> Sym { unsupported("cbrt") }
-    fn hypot(self, _: Sym) -> Sym { unsupported("hypot") }
-    fn sin(self) -> Sym { uf1(self, "sin", f64::sin) }
-    fn cos(self) -> Sym { uf1(self, "cos", f64::cos) }
-    fn tan(self) -> Sym { uf1(self, "tan", f64::tan) }
-    fn asin(self) -> Sym { unsupported("asin") }
-    fn acos(self) -> Sym { unsupported("acos") }
-    fn atan(self) -> Sym { unsupported("atan") }
-    fn atan2(self, _: Sym) -> Sym { unsupported("atan2") }
-    fn sin_cos(self) -> (Sym, Sym) { (self.sin(), self.cos()) }
-    fn exp_m1(self) -> Sym { unsupported("exp_m1") }
-    fn ln_1p(self) -> Sym { unsupported("ln_1p") }
-    fn sinh(self) -> Sym { unsupported("sinh") }
-    fn cosh(self) -> Sym { unsupported("cosh") }
-    fn tanh(self) -> Sym { uf1(self, "tanh", f64::tanh) }
-    fn asinh(self) -> Sym { unsupported("asinh") }
-    fn acosh(self) -> Sym { unsupported("acosh") }
-    fn atanh(self) -> Sym { unsupported("atanh") }
-    fn integer_decode(self) -> (u64, i16, i8) { unsupported("integer_decode") }
+    fn log10(self) -> Sym { let _g = enter(); uf1(self, "log10", f64::log10) }
+    fn max(self, o: Sym) -> Sym { let _g = enter(); if lt(self, o) { o } else { self } }
+    fn min(self, o: Sym) -> Sym { let _g = enter(); if lt(o, self) { o } else { self } }
+    fn abs_sub(self, _: Sym) -> Sym { let _g = enter(); unsupported("abs_sub") }
+    fn cbrt(self) -> Sym { let _g = enter(); unsupported("cbrt") }
+    fn hypot(self, _: Sym) -> Sym { let _g = enter(); unsupported("hypot") }
+    fn sin(self) -> Sym { let _g = enter(); uf1(self, "sin", f64::sin) }
+    fn cos(self) -> Sym { let _g = enter(); uf1(self, "cos", f64::cos) }
+    fn tan(self) -> Sym { let _g = enter(); uf1(self, "tan", f64::tan) }
+    fn asin(self) -> Sym { let _g = enter(); unsupported("asin") }
+    fn acos(self) -> Sym { let _g = enter(); unsupported("acos") }
+    fn atan(self) -> Sym { let _g = enter(); unsupported("atan") }
+    fn atan2(self, _: Sym) -> Sym { let _g = enter(); unsupported("atan2") }
+    fn sin_cos(self) -> (Sym, Sym) { let _g = enter(); (self.sin(), self.cos()) }
+    fn exp_m1(self) -> Sym { let _g = enter(); unsupported("exp_m1") }
+    fn ln_1p(self) -> Sym { let _g = enter(); unsupported("ln_1p") }
+    fn sinh(self) -> Sym { let _g = enter(); unsupported("sinh") }
+    fn cosh(self) -> Sym { let _g = enter(); unsupported("cosh") }
+    fn tanh(self) -> Sym { let _g = enter(); uf1(self, "tanh", f64::tanh) }
+    fn asinh(self) -> Sym { let _g = enter(); unsupported("asinh") }
+    fn acosh(self) -> Sym { let _g = enter(); unsupported("acosh") }
+    fn atanh(self) -> Sym { let _g = enter(); unsupported("atanh") }
+    fn integer_decode(self) -> (u64, i16, i8) { let _g = enter(); unsupported("integer_decode") }
 }
